@@ -25,12 +25,9 @@ func (p *Path) tryMerge(fr *frame, block *ssa.BasicBlock, cond *term.Term) (nb, 
 		return
 	}
 	ifInstr := block.Instrs[len(block.Instrs)-1]
-	p.X.mergeMu.Lock()
-	bad := p.X.mergeBad[ifInstr]
-	p.X.mergeMu.Unlock()
-	if bad {
-		return
-	}
+	// (no cross-path cache of failed merges: whether a region is mergeable depends on the
+	// values on the path, and a shared cache would make path replay non-deterministic)
+	_ = ifInstr
 	var edges []mergeEdge
 	var join *ssa.BasicBlock
 	nblocks := 0
@@ -125,11 +122,7 @@ func (p *Path) tryMerge(fr *frame, block *ssa.BasicBlock, cond *term.Term) (nb, 
 		visit(block.Succs[1], block, p.C.Not(cond))
 	}()
 	if failed || len(edges) == 0 {
-		if static {
-			p.X.mergeMu.Lock()
-			p.X.mergeBad[ifInstr] = true
-			p.X.mergeMu.Unlock()
-		}
+		_ = static
 		return
 	}
 	nret := 0
@@ -139,9 +132,6 @@ func (p *Path) tryMerge(fr *frame, block *ssa.BasicBlock, cond *term.Term) (nb, 
 		}
 	}
 	if nret != 0 && nret != len(edges) {
-		p.X.mergeMu.Lock()
-		p.X.mergeBad[ifInstr] = true
-		p.X.mergeMu.Unlock()
 		return
 	}
 	if len(fr.defers) > 0 && nret > 0 {
